@@ -30,8 +30,12 @@ set_option autoImplicit false
 
 /-! ### the source facts -/
 
-/-- `OpRange`: `size := max - min + 1`, refused *before* building (`vm.memory+size >= vm.limit`), then
-    `vm.push(makeRange(min, max)); vm.memory += size` — as in the model's `.range` clause -/
+/-- `OpRange`: `size` is `max - min + 1` (clamped at zero: either `if size < 0 { size = 0 }` after it, or
+    `size := 0; if max >= min { size = max - min + 1 … }` — both shapes set `clamped`), refused *before* building
+    (`vm.memory+size >= vm.limit`), then `vm.push(makeRange(min, max)); vm.memory += size` — as in the model's
+    `.range` clause.  The model computes `size` in unbounded integers; `Gen.Budget.rangeOverflowGuard` records
+    whether the code refuses a size that does not fit an `int` (then it agrees with the model there too: such a
+    range exceeds every budget). -/
 theorem range_site_as_modelled :
     Gen.Budget.rangeSite.sizeExpr = "max - min + 1" ∧
     Gen.Budget.rangeSite.testLhs = "vm.memory+size" ∧ Gen.Budget.rangeSite.testOp = ">=" ∧
